@@ -20,13 +20,14 @@ def gen_case(rng):
     T = int(rng.integers(2, 10))
     # species layout: reference species get 1, 2 or 4 atoms (exact means), plus floating atoms
     layouts = [['O', 'Li'], ['O', 'O', 'Li'], ['O', 'O', 'S', 'S', 'Li', 'Li'], ['O', 'S', 'Li', 'Li'], ['O', 'O', 'O', 'O', 'Li'],
-               ['O', 'O', 'O', 'Li', 'Li'], ['Si', 'S', 'Li']]
+               ['O', 'O', 'O', 'Li', 'Li'], ['Si', 'S', 'Li'], ['S', 'S', 'Si', 'Si'], ['N', 'O', 'Na'], ['C', 'C', 'Cl', 'O']]
     species = list(layouts[int(rng.integers(len(layouts)))])
     A = len(species)
     c = trajsc.rand_coords(rng, T, A, step_scale=6)  # steps <= 6/64: SmallSteps holds with margin
     # rigid time-dependent translation, zero in the first frame
     inj = np.concatenate([np.zeros((1, 1, 3)), np.cumsum(rng.integers(-5, 6, size=(T - 1, 1, 3)), axis=0) / 64])
-    floating = 'Li'
+    # the floating species' symbol may CONTAIN the symbol of a reference species (Si/S, Na/N, Cl/C)
+    floating = 'Li' if 'Li' in species else [x for x in ('Si', 'Na', 'Cl') if x in species][0]
     fixed = sorted(set(species) - {floating})
     return {'lattice_name': name, 'lattice': lat.tolist(), 'species': species, 'coords': c.tolist(), 'inject': inj.tolist(),
             'floating': floating, 'fixed': fixed, 'kind': str(rng.choice(['Element', 'Species']))}
